@@ -21,6 +21,7 @@ mod c09;
 mod c11;
 mod c14;
 mod c17;
+mod c19;
 mod jsmini;
 mod c15;
 mod gen;
@@ -231,6 +232,8 @@ pub fn eval(out: &mut Out, req: &str) -> String {
         c05::eval(out, op, &args)
     } else if op.starts_with("hash.") || op.starts_with("lbl.") {
         c15::eval(out, op, &args)
+    } else if op.starts_with("bind.") || op.starts_with("mo.") || op.starts_with("ts.") {
+        c19::eval(out, op, &args)
     } else if op.starts_with("js.") {
         c17::eval(out, op, &args)
     } else if op.starts_with("chk.") {
@@ -311,6 +314,7 @@ fn main() {
         "C13" => c11::run_c13(&mut ctx),
         "C14" => c14::run(&mut ctx),
         "C17" => c17::run(&mut ctx),
+        "C19" => c19::run(&mut ctx),
         "C15" => c15::run(&mut ctx),
         "C16" => c16::run(&mut ctx),
         _ => {
